@@ -52,17 +52,25 @@ Cases ==
   \* include ("leaf.liq") is resolved against the directory of the template being rendered
   \cup [g : {"crossdir"}, where : {"disk", "cache"}, phase : 1..2]
   \* the file is the one named by exactly the string value: white space at either end is part of the name
-  \cup [g : {"exactname"}, top : 1..2, k : 1..4, where : {"disk", "cache"}]
+  \cup [g : {"exactname"}, top : 1..2, k : 1..6, where : {"disk", "cache"}]
+  \* the text of the included file reaches the output whole: also the line end(s) it finishes with
+  \cup [g : {"tailnl"}, top : 1..2, k : 1..3, where : {"disk", "cache"}]
   \cup [g : {"loop"}, top : 1..2]
   \cup [g : {"fail"}, top : 1..2, how : {"nonstring-int", "nonstring-nil", "nonstring-arr", "inner-error", "inner-syntax", "missing-nested"}]
 
 \* 1: " f.liq" (next to f.liq)   2: "f.liq " (only f.liq is there)   3: "f.liq\n", captured (next to f.liq)   4: "f.liq" (only " f.liq" is there)
-Nm(k) == CASE k = 1 -> <<32>> \o F_LIQ [] k = 2 -> F_LIQ \o <<32>> [] k = 3 -> F_LIQ \o <<10>> [] k = 4 -> F_LIQ
+\* 5: "a\f.liq", a backslash in the name (next to a/f.liq)   6: the same with only a/f.liq there
+BSL == <<97, 92>> \o F_LIQ
+SLA == <<97, 47>> \o F_LIQ
+Nm(k) == CASE k = 1 -> <<32>> \o F_LIQ [] k = 2 -> F_LIQ \o <<32>> [] k = 3 -> F_LIQ \o <<10>> [] k = 4 -> F_LIQ [] k \in {5, 6} -> BSL
+TailOf(k) == CASE k = 1 -> <<10>> [] k = 2 -> <<13, 10>> [] k = 3 -> <<10, 10>>
 InDir(x, name) == JoinPath(DirOf(TOPS[x.top]), name)
 ExactFiles(x) == CASE x.k = 1 -> << <<InDir(x, Nm(1)), Body(IF x.where = "disk" THEN DISK ELSE CACHE)>>, <<InDir(x, F_LIQ), Body(DECOY)>> >>
                    [] x.k = 2 -> << <<InDir(x, F_LIQ), Body(DECOY)>> >>
                    [] x.k = 3 -> << <<InDir(x, Nm(3)), Body(IF x.where = "disk" THEN DISK ELSE CACHE)>>, <<InDir(x, F_LIQ), Body(DECOY)>> >>
                    [] x.k = 4 -> << <<InDir(x, Nm(1)), Body(DECOY)>> >>
+                   [] x.k = 5 -> << <<InDir(x, BSL), Body(IF x.where = "disk" THEN DISK ELSE CACHE)>>, <<InDir(x, SLA), Body(DECOY)>> >>
+                   [] x.k = 6 -> << <<InDir(x, SLA), Body(DECOY)>> >>
 RelOf(x) == IF (x.g = "basic" /\ x.rel = "sub") \/ x.g = "nestedsub" THEN SUB_F ELSE F_LIQ
 Target(x) == JoinPath(DirOf(TOPS[x.top]), RelOf(x))
 IncArg(x) ==
@@ -88,6 +96,7 @@ ProgOf(x) ==
     [] x.g = "nestedsub" -> <<T(<<60>>), AssignW, Inc(Lit(S(SUB_F))), T(<<62>>)>>
     [] x.g = "trimedge" ->
          <<T(<<97, 32, 10>>)>> \o (IF x.k = 5 THEN <<[t |-> "trimL"], Inc(Lit(S(F_LIQ))), [t |-> "trimR"]>> ELSE <<Inc(Lit(S(F_LIQ)))>>) \o <<T(<<32, 10, 32, 98>>)>>
+    [] x.g = "tailnl" -> <<T(<<60>>), AssignW, Inc(Lit(S(F_LIQ))), T(<<62>>)>>
     [] x.g = "exactname" ->
          <<T(<<60>>), AssignW>>
          \o (IF x.k = 3 THEN <<[t |-> "capture", name |-> <<109>>, body |-> <<T(Nm(3))>>], Inc(Var(<<109>>))>> ELSE <<Inc(Lit(S(Nm(x.k))))>>)
@@ -123,6 +132,7 @@ FilesOf(x) ==
                                      <<JoinPath(DirOf(Target(x)), G_LIQ), Body(DECOY)>> >> ELSE <<>>)
     [] x.g = "loop" -> << <<Target(x), Body(DISK)>> >>
     [] x.g = "exactname" -> IF x.where = "disk" THEN ExactFiles(x) ELSE <<>>
+    [] x.g = "tailnl" -> IF x.where = "disk" THEN << <<Target(x), Body(DISK) \o <<T(TailOf(x.k))>> >> >> ELSE <<>>
     [] x.g = "changed" ->
          (CASE x.change = "edit" -> << <<Target(x), Body(IF x.phase = 1 THEN DISK ELSE DECOY)>> >>
             [] x.change = "remove" -> IF x.phase = 1 THEN << <<Target(x), Body(DISK)>> >> ELSE <<>>
@@ -148,6 +158,7 @@ CacheOf(x) ==
                                                         <<JoinPath(DirOf(Target(x)), G_LIQ), Body(DECOY)>> >> ELSE <<>>
     [] x.g = "changed" -> IF x.change \in {"shadow", "unshadow"} THEN << <<Target(x), Body(CACHE)>> >> ELSE <<>>
     [] x.g = "exactname" -> IF x.where = "cache" THEN ExactFiles(x) ELSE <<>>
+    [] x.g = "tailnl" -> IF x.where = "cache" THEN << <<Target(x), Body(CACHE) \o <<T(TailOf(x.k))>> >> >> ELSE <<>>
     [] x.g = "empty" -> (CASE x.where \in {"cache", "both-emptycache"} -> << <<Target(x), <<>>>> >>
                            [] x.where = "both-emptydisk" -> << <<Target(x), Body(CACHE)>> >>
                            [] OTHER -> <<>>)
@@ -169,8 +180,10 @@ NestedAndLoop ==
   /\ (c.g = "loop" /\ st.status # "run") =>
         st.status = "ok" /\ st.sink.acc = Flatten([i \in 1..3 |-> <<91>> \o DISK \o <<58>> \o IntText(i) \o <<124, 93, 44>>]) \o <<86>>
 ExactName == (c.g = "exactname" /\ st.status # "run") =>
-               IF c.k \in {1, 3} THEN st.status = "ok" /\ st.sink.acc = <<60, 91>> \o Tag(c) \o <<58, 86, 124, 87, 93, 62>>
+               IF c.k \in {1, 3, 5} THEN st.status = "ok" /\ st.sink.acc = <<60, 91>> \o Tag(c) \o <<58, 86, 124, 87, 93, 62>>
                ELSE st.status = "error"
+TailKept == (c.g = "tailnl" /\ st.status # "run") =>
+              st.status = "ok" /\ st.sink.acc = <<60, 91>> \o Tag(c) \o <<58, 86, 124, 87, 93>> \o TailOf(c.k) \o <<62>>
 EmptyIsIncluded == (c.g = "empty" /\ st.status # "run") =>
                      st.status = "ok" /\ st.sink.acc = (IF c.where = "both-emptycache" THEN <<60, 91>> \o DISK \o <<58, 86, 124, 87, 93, 62>> ELSE <<60, 62>>)
 Inl(tag) == <<60, 91>> \o tag \o <<58, 86, 124, 87, 93, 62>>
@@ -198,6 +211,7 @@ IdOf(x) ==
     [] x.g = "changed" -> "changed-" \o ToString(x.top) \o "-" \o x.change \o "-" \o ToString(x.phase)
     [] x.g = "crossdir" -> "crossdir-" \o x.where \o "-" \o ToString(x.phase)
     [] x.g = "trimedge" -> "trimedge-" \o ToString(x.top) \o "-" \o ToString(x.k) \o "-" \o x.where
+    [] x.g = "tailnl" -> "tailnl-" \o ToString(x.top) \o "-" \o ToString(x.k) \o "-" \o x.where
     [] x.g = "exactname" -> "exactname-" \o ToString(x.top) \o "-" \o ToString(x.k) \o "-" \o x.where
     [] x.g = "loop" -> "loop-" \o ToString(x.top)
     [] x.g = "fail" -> "fail-" \o ToString(x.top) \o "-" \o x.how
